@@ -958,4 +958,82 @@ example : ValidHistory (initState (.node 0 [.node 1 [.node 2 []]]))
     [.expand [0, 1], .collapse [0, 1]] := by
   refine ⟨trivial, ⟨by decide, by decide⟩, trivial⟩
 
+/-! #### tpStateLevel and tpValuesIds of the source
+
+`GenTreeState.stateLevelGen` / `valuesIdsGen` are regenerated on every run from TreeTag.tpStateLevel / tpValuesIds
+(harness/trans_tree.py). -/
+
+/-- tpStateLevel is the model's depth, however the entries without sub-entries are written (`two s` = the entry `s` is
+written with its sub-list, `len(sub) == 2`; an entry that has sub-entries is) -/
+theorem gen_state_level_is_model (two : St → Bool) (h : ∀ s : St, s.kids ≠ [] → two s = true)
+    (state : List St) (level : Nat) :
+    GenTreeState.stateLevelGen two state level = max level (depthList state) :=
+  Lemmas.TreeGen.gen_state_level two h state level
+
+/-- the two uniform ways of writing: `[id]` whenever there is no sub-entry (what `tpValuesIds` builds), `[id, []]`
+always (what `apply_diff` builds) - the hypothesis of `gen_state_level_is_model` is not vacuous -/
+theorem gen_state_level_default (state : List St) :
+    GenTreeState.stateLevelGen (fun s => !s.kids.isEmpty) state 0 = depthList state ∧
+    GenTreeState.stateLevelGen (fun _ => true) state 0 = depthList state := by
+  constructor
+  · rw [gen_state_level_is_model _ (by intro s hs; cases hk : s.kids <;> simp_all) state 0]; simp
+  · rw [gen_state_level_is_model _ (by intro s _; rfl) state 0]; simp
+
+mutual
+theorem pathsOf_le_depth : ∀ (s : St) (pre p : Path), p ∈ pathsOf s pre → p.length ≤ pre.length + depthSt s
+  | .node id kids, pre, p, hp => by
+    simp only [pathsOf, List.mem_cons] at hp
+    simp only [depthSt]
+    rcases hp with rfl | hp
+    · simp only [List.length_append, List.length_cons, List.length_nil]; omega
+    · have := pathsList_le_depth kids (pre ++ [id]) p hp
+      simp only [List.length_append, List.length_cons, List.length_nil] at this
+      omega
+/-- **Depth.**  No path recorded in a state is longer than the level tpStateLevel computes (the colspan of the table) -/
+theorem pathsList_le_depth : ∀ (st : List St) (pre p : Path), p ∈ pathsList st pre →
+    p.length ≤ pre.length + depthList st
+  | [], _, _, hp => by simp [pathsList] at hp
+  | s :: ss, pre, p, hp => by
+    simp only [pathsList, List.mem_append] at hp
+    simp only [depthList]
+    rcases hp with hp | hp
+    · have := pathsOf_le_depth s pre p hp; omega
+    · have := pathsList_le_depth ss pre p hp; omega
+end
+
+mutual
+theorem depthSt_attained : ∀ (s : St) (pre : Path), ∃ p ∈ pathsOf s pre, p.length = pre.length + depthSt s
+  | .node id kids, pre => by
+    simp only [pathsOf, depthSt]
+    by_cases hk : kids = []
+    · subst hk
+      exact ⟨pre ++ [id], by simp, by simp [depthList]⟩
+    · obtain ⟨p, hp, hl⟩ := depthList_attained kids (pre ++ [id]) hk
+      refine ⟨p, by simp [hp], ?_⟩
+      simp only [List.length_append, List.length_cons, List.length_nil] at hl
+      omega
+/-- … and a non-empty state records a path of exactly that length: tpStateLevel is the length of the longest path -/
+theorem depthList_attained : ∀ (st : List St) (pre : Path), st ≠ [] →
+    ∃ p ∈ pathsList st pre, p.length = pre.length + depthList st
+  | [], _, h => absurd rfl h
+  | s :: ss, pre, _ => by
+    simp only [pathsList, depthList]
+    by_cases hm : depthList ss ≤ depthSt s
+    · obtain ⟨p, hp, hl⟩ := depthSt_attained s pre
+      exact ⟨p, by simp [hp], by omega⟩
+    · have hne : ss ≠ [] := by
+        intro h; subst h; simp [depthList] at hm
+      obtain ⟨p, hp, hl⟩ := depthList_attained ss pre hne
+      exact ⟨p, by simp [hp], by omega⟩
+end
+
+/-- tpValuesIds of a node is the model's `allIdsList` of its children -/
+theorem gen_values_ids_is_model (t : T) : GenTreeState.valuesIdsGen t = allIdsList t.kids :=
+  Lemmas.TreeGen.gen_values_ids t
+
+/-- `state = [id, tpValuesIds(self, get_items, args)]` (expand_all) is `expandAllState` -/
+theorem gen_values_ids_is_expand_all (root : T) :
+    [St.node root.id (GenTreeState.valuesIdsGen root)] = expandAllState root := by
+  rw [gen_values_ids_is_model]; rfl
+
 end DTML.Props.C20
